@@ -366,7 +366,11 @@ class Gen08:
                 self.feats.add("symbol-content")
         lines += ["  " + s for s in self.pending_fwd]
         if self.defs:
-            lines.insert(0, "  <defs>" + "".join(self.defs) + "</defs>")
+            # the clipPath definitions may come before or after the elements they clip (forward reference)
+            where = r.choice(["first", "first", "last", "middle"])
+            at = {"first": 0, "last": len(lines), "middle": r.randint(0, len(lines))}[where]
+            lines.insert(at, "  <defs>" + "".join(self.defs) + "</defs>")
+            self.feats.add("clip-defs." + where)
         root_attrs = {}
         sub = r.randrange(8) if r.random() < 0.5 else 0
         if sub & 1:
